@@ -13,7 +13,10 @@ use crate::subjects::alpha::{self, Verdict};
 use serde_json::{Value, json};
 
 pub const ATOMS: usize = 11;
-pub const VARIANTS: [&str; 4] = ["plain", "x is also a parameter", "x is also a module constant", "behind a function that skips declarations of x and y"];
+pub const VARIANTS: [&str; 5] = ["plain", "x is also a parameter", "x is also a module constant", "behind a function that skips declarations of x and y", "behind function heads whose parameters are named x, y and acc"];
+
+/// The heads in front of the judged function in variant 4: their parameters are no names of the module.
+const HEADS: &str = "extern fn put(x: i32, y: i32);\nfn later(acc: i32, x: i32);\n";
 
 /// The function in front of the judged one in variant 3: it jumps over declarations of x and y
 /// that it never uses afterwards (valid), and declares the labels A and B.
@@ -58,6 +61,11 @@ pub fn render(variant: usize, forest: &[B]) -> (String, Vec<usize>)
 	{
 		text.push_str(OTHER_FUNCTION);
 		first_body_line += OTHER_FUNCTION.lines().count();
+	}
+	if variant == 4
+	{
+		text.push_str(HEADS);
+		first_body_line += HEADS.lines().count();
 	}
 	if variant == 1
 	{
@@ -151,7 +159,7 @@ fn loops_well_placed(forest: &[B], is_function_body: bool) -> bool
 pub fn drive(d: &mut Driver)
 {
 	let quick = d.quick();
-	let plan: Vec<(usize, usize, usize)> = if quick { vec![(0, 6, 3), (1, 5, 3), (2, 5, 3), (3, 5, 3)] } else { vec![(0, 7, 3), (1, 6, 3), (2, 6, 3), (3, 6, 3)] };
+	let plan: Vec<(usize, usize, usize)> = if quick { vec![(0, 6, 3), (1, 5, 3), (2, 5, 3), (3, 5, 3), (4, 4, 3)] } else { vec![(0, 7, 3), (1, 6, 3), (2, 6, 3), (3, 6, 3), (4, 5, 3)] };
 	d.bound("atoms", json!((0..ATOMS as u8).map(atom_text).collect::<Vec<_>>()));
 	d.bound("variants (max statements, block nesting depth)", json!(plan.iter().map(|(v, n, dep)| json!({"variant": VARIANTS[*v], "max_statements": n, "depth": dep})).collect::<Vec<_>>()));
 	d.bound("excluded by construction", json!("bodies with a label error according to the C04 model, and bodies with a misplaced loop"));
@@ -476,7 +484,7 @@ fn judge(variant: usize, forest: &[B], w: &mut WorkerCtx)
 	}
 	w.result.states += 1;
 	let (text, atom_lines) = render(variant, forest);
-	let outer: Vec<usize> = if variant == 0 || variant == 3 { vec![] } else { vec![0] };
+	let outer: Vec<usize> = if variant == 0 || variant >= 3 { vec![] } else { vec![0] };
 	let m = vars::judge(&vbody, &outer);
 	let desc = || json!({"variant": variant, "forest": crate::checks::c04::encode_forest(forest), "text": text});
 	let d = desc().to_string().into_bytes();
